@@ -51,27 +51,73 @@ let show_res id name = function
   | Panic -> Printf.printf "%s %s panic\n" id name
   | OutOfFuel -> Printf.printf "%s %s outoffuel\n" id name
 
-let down_line line =
+(* mode "layout": the "down" lines plus, per formatter, the statement list the model's linear readers
+   give on the down section (DownLayoutModel): <id> <formatter>.down <count> <base64(sha256(join "\000"))>;
+   the lines come in the order harness/cmd/rev/down.go writes them *)
+let stmts_obs id name (st : bytes list) =
+  Printf.printf "%s %s.down %d %s\n" id name (Stdlib.List.length st)
+    (Sha256.hs (String.concat "\x00" (Stdlib.List.map string_of_bytes st)))
+
+let plan_line layout line =
   let toks = Array.of_list (String.split_on_char ' ' line) in
   let id = toks.(0) in
   let now = bytes_of_string (if toks.(1) = "-" then "" else toks.(1)) in
   let cs = parse_changes toks 2 in
-  Printf.printf "%s flag %s\n" id (if setReversible cs then "true" else "false");
-  Printf.printf "%s golang-migrate.0 %s\n" id (hs (up_body cs));
-  show_res id "golang-migrate.1" (down_body cs);
   let closed = Stdlib.List.for_all (fun c ->
       let rs = reverseStmts c in
       (rs = [] || no_nl c.c_comment) && Stdlib.List.for_all line_closed rs) cs in
-  (match down_body cs with
+  let sect name = function
+    | Ok d when closed -> stmts_obs id name (line_scan_fast d)
+    | _ -> Printf.printf "%s %s.down open\n" id name in
+  let onefile name reader = function
+    | Ok f when closed ->
+      (match reader f with
+       | Some st -> stmts_obs id name st
+       | None -> Printf.printf "%s %s.down nomarker\n" id name)
+    | _ -> Printf.printf "%s %s.down open\n" id name in
+  (* each model function is evaluated once per plan; golang-migrate and flyway share their two content templates *)
+  let ub = up_body cs and db = down_body cs in
+  let ub_h = hs ub in
+  let show_h name = function
+    | Ok h -> Printf.printf "%s %s %s\n" id name h
+    | Panic -> Printf.printf "%s %s panic\n" id name
+    | OutOfFuel -> Printf.printf "%s %s outoffuel\n" id name in
+  let db_h = (match db with Ok b -> Ok (hs b) | Panic -> Panic | OutOfFuel -> OutOfFuel) in
+  let db_fast = lazy (match db with Ok d when closed -> Some (line_scan_fast d) | _ -> None) in
+  let sect_memo name = match Lazy.force db_fast with
+    | Some st -> stmts_obs id name st
+    | None -> Printf.printf "%s %s.down open\n" id name in
+  ignore sect;
+  Printf.printf "%s flag %s\n" id (if setReversible cs then "true" else "false");
+  Printf.printf "%s golang-migrate.0 %s\n" id ub_h;
+  show_h "golang-migrate.1" db_h;
+  (match db with
    | Ok d when closed ->
+     (* stage down: the specification reader; stage layout: the linear one (equal: C17_layout_readers_eq) *)
+     let st = if layout then (match Lazy.force db_fast with Some st -> st | None -> []) else line_scan d in
      Printf.printf "%s golang-migrate.scan %s\n" id
-       (Sha256.hs (String.concat "\x00" (Stdlib.List.map string_of_bytes (line_scan d))))
+       (Sha256.hs (String.concat "\x00" (Stdlib.List.map string_of_bytes st)))
    | _ -> Printf.printf "%s golang-migrate.scan open\n" id);
-  show_res id "goose.0" (goose_file cs);
-  Printf.printf "%s flyway.0 %s\n" id (hs (up_body cs));
-  show_res id "flyway.1" (down_body cs);
+  if layout then sect_memo "golang-migrate";
+  let gf = goose_file cs in
+  show_res id "goose.0" gf;
+  if layout then onefile "goose" goose_down_stmts gf;
+  Printf.printf "%s flyway.0 %s\n" id ub_h;
+  show_h "flyway.1" db_h;
+  if layout then sect_memo "flyway";
   Printf.printf "%s liquibase.0 %s\n" id (hs (liquibase_file now cs));
-  show_res id "dbmate.0" (dbmate_file cs)
+  if layout then begin
+    let lq_closed = Stdlib.List.for_all (fun c ->
+        no_nl c.c_comment && lq_cmd_ok_fast c.c_cmd && Stdlib.List.for_all line_closed (reverseStmts c)) cs in
+    if lq_closed then stmts_obs id "liquibase" (liquibase_down_fast now cs)
+    else Printf.printf "%s liquibase.down open\n" id
+  end;
+  let df = dbmate_file cs in
+  show_res id "dbmate.0" df;
+  if layout then onefile "dbmate" dbmate_down_stmts df
+
+let down_line = plan_line false
+let layout_line = plan_line true
 
 (* mode "alter": <id> <dialect> <n> <arm>*n, arm = hex of "<kind letter>:<object key>" *)
 let alter_line line =
@@ -96,6 +142,8 @@ let alter_line line =
   | Some ks -> Printf.printf "%s A %s\n" id (String.concat " " (Stdlib.List.map string_of_bytes ks))
 
 let () =
+  (* the byte lists of a 64 KiB statement are millions of small blocks: a large minor heap keeps them out of the major GC *)
+  Gc.set { (Gc.get ()) with Gc.minor_heap_size = 8 * 1024 * 1024; Gc.space_overhead = 200 };
   let mode = if Array.length Sys.argv > 1 then Sys.argv.(1) else "down" in
   (try
     while true do
@@ -104,6 +152,7 @@ let () =
         match mode with
         | "down" -> down_line line
         | "alter" -> alter_line line
+        | "layout" -> layout_line line
         | _ -> failwith ("unknown mode " ^ mode)
     done
   with End_of_file -> ())
